@@ -93,41 +93,57 @@ func Run(bh Behaviour, seed int64) ([]Line, error) {
 	deliveries := make(chan delivery, 64)
 	closedCh := make(chan string, 16)
 	var wg sync.WaitGroup
-	for _, name := range reg {
-		ln, err := sl.GetListener(name, nodeenrollment.WithNativeConns(native[name]))
-		if err != nil {
-			return nil, err
-		}
-		wg.Add(1)
-		go func(name string, ln net.Listener) {
-			defer wg.Done()
-			for {
-				c, err := ln.Accept()
-				if err != nil {
-					if errors.Is(err, net.ErrClosed) {
-						closedCh <- name
-					} else {
-						closedCh <- name + ":" + err.Error()
-					}
-					return
-				}
-				d := delivery{from: name, conn: c}
-				switch x := c.(type) {
-				case *protocol.Conn:
-					d.native = true
-					d.neg = x.ConnectionState().NegotiatedProtocol
-				case *tls.Conn:
-					d.neg = x.ConnectionState().NegotiatedProtocol
-				default:
-					d.neg = "?"
-				}
-				d.auth = strings.HasPrefix(d.neg, nodeenrollment.AuthenticateNodeNextProtoV1Prefix)
-				deliveries <- d
-			}
-		}(name, ln)
+	// late: sub-listeners requested only AFTER Start is running (allowed until the base listener is closed)
+	late := map[string]bool{}
+	for _, n := range strList(bh.Ops[0]["late"]) {
+		late[n] = true
 	}
 	startErr := make(chan error, 1)
-	go func() { startErr <- sl.Start() }()
+	started := false
+	for pass := 0; pass < 2; pass++ {
+		if pass == 1 {
+			go func() { startErr <- sl.Start() }()
+			started = true
+			time.Sleep(60 * time.Millisecond)
+		}
+		for _, name := range reg {
+			if late[name] != (pass == 1) {
+				continue
+			}
+			ln, err := sl.GetListener(name, nodeenrollment.WithNativeConns(native[name]))
+			if err != nil {
+				return nil, err
+			}
+			wg.Add(1)
+			go func(name string, ln net.Listener) {
+				defer wg.Done()
+				for {
+					c, err := ln.Accept()
+					if err != nil {
+						if errors.Is(err, net.ErrClosed) {
+							closedCh <- name
+						} else {
+							closedCh <- name + ":" + err.Error()
+						}
+						return
+					}
+					d := delivery{from: name, conn: c}
+					switch x := c.(type) {
+					case *protocol.Conn:
+						d.native = true
+						d.neg = x.ConnectionState().NegotiatedProtocol
+					case *tls.Conn:
+						d.neg = x.ConnectionState().NegotiatedProtocol
+					default:
+						d.neg = "?"
+					}
+					d.auth = strings.HasPrefix(d.neg, nodeenrollment.AuthenticateNodeNextProtoV1Prefix)
+					deliveries <- d
+				}
+			}(name, ln)
+		}
+	}
+	_ = started
 
 	cfgMap := map[string]any{"reg": reg, "native": strList(bh.Ops[0]["native"])}
 	var lines []Line
